@@ -126,12 +126,12 @@ type knownOpt struct {
 
 var rxKnownOpts = []knownOpt{
 	{"space-class-lacks-vt-ff", func(o *omOpts) { o.spaceVTFF = true }},
-	{"word-boundary-one-sided", func(o *omOpts) { o.laxWord = true }},
 }
 
 func TestC37(t *testing.T) {
 	rec := ev.New("C37", "rapid-generated pattern ASTs (literals incl. escaped specials, dot, classes/negated/ranges/shortcuts/posix, ^ $ \\A \\Z, greedy and lazy ? * +, groups, alternation incl. empty alternatives, (?i)/(?-i), (?q)) rendered to Suneido and Go syntax, x 3 subjects each (half embed a sample of the pattern; alphabet abcABC01_ -.\\n plus specials, \\r when the pattern has no $). Own-oracle cases add \\< \\>, $ with \\r, high bytes, start positions, LastMatch, All. Non-trivial: pattern uses a quantifier, alternation, class, anchor or flag and the subject is non-empty; distinct = (Suneido pattern, subject, entry point).")
 	rec.Assumptions = []string{
+		"\\< and \\> are outside the Go subset and are judged by the one-sided definition (not preceded / not followed by a word character) that the repo's stdlib patterns rely on; an earlier two-sided reading of the suneidoc prose was a false alarm and was withdrawn",
 		"Go regexp (leftmost-first, (?m), '.' rendered as [^\\r\\n], \\Z as \\z) is the reference on the common subset; ASCII subjects there",
 		"CR LF is one line end for $ (documented by the repo's own test), $ with \\r is judged by the harness's own matcher only",
 		"(?i)/(?-i) are textual toggles; the renderer restores the flag before every ')' so that group scoping cannot matter",
